@@ -98,6 +98,56 @@ def run_overlap(case) -> dict:
     return {"viol": viol, "digest": world.digest(), "key": common.key_hash(case), "fired": {"clk_set": 1}, "probes": probes, "vtime_ns": world.stats.get("vtime_ns", 0)}
 
 
+def run_thread_overlap(case) -> dict:
+    """["toverlap", n, ft, tick_ticks, seed, policy]: n caller threads of one process protect on ONE cache while the wall clock advances
+    with every reading and passes an interval boundary; simworld.threads decides every pre-emption.  Each blob must name an
+    interval that contains an instant of its OWN call."""
+    import dpapi_ng
+    from checks import plan as P
+    from simworld import threads as simthreads
+
+    _, n, ft, tick_ticks, seed, policy = case
+    world = W.World(seed)
+    record: list = []
+    cache = offline.new_cache(RK)
+    world.clock.set_filetime(ft)
+    world.clock.tick_per_read_ns = tick_ticks * 100
+
+    def one():
+        start = world.clock.filetime()
+        blob = dpapi_ng.ncrypt_protect_secret(b"x", SID, root_key_identifier=RK.root_key_id, cache=cache)
+        return (start, world.clock.filetime(), blob)
+
+    with world.installed(ctx_factory=drive.stub_ctx_factory(CFG, record)):
+        tsim = simthreads.ThreadSim(random.Random(seed ^ 0x9C09), P.SRC_PREFIX(), policy)
+        try:
+            res = tsim.run([one for _ in range(n)])
+        except simthreads.Wedged as e:
+            raise common.HarnessError(str(e))
+    viol = None
+    probes = {"thread_protects_one_cache": 1, "thread_overlap": tsim.overlap}
+    for k, (val, exc) in enumerate(res):
+        if exc is not None:
+            viol = common.violation("C09", "protect-failed", "threads", type(exc).__name__, common.innermost_repo_frame(exc) if isinstance(exc, Exception) else "", "",
+                                    f"thread {k} of {n} protecting on one cache at filetime {ft} failed: {exc!r}")
+            break
+        start, end, blob = val
+        p = cms.parse_blob(blob)["key_identifier"]
+        got = (p["l0"], p["l1"], p["l2"])
+        lo, hi = gkdi.interval_of_filetime(start), gkdi.interval_of_filetime(end)
+        if lo != hi:
+            probes["boundary_crossed_during_call"] = 1
+        else:
+            probes["thread_call_entirely_on_one_side"] = 1
+        if not (lo <= got <= hi):
+            viol = common.violation("C09", "interval", "threads", "past" if got < lo else "future", "", "",
+                                    f"thread {k} of {n} (one cache) ran from filetime {start} ({lo}) to {end} ({hi}) but its blob names {got}; "
+                                    f"{len(tsim.switches)} pre-emptions")
+            break
+    return {"viol": viol, "digest": world.digest() + str(len(tsim.switches)), "key": common.key_hash(case), "sched_key": common.key_hash(tsim.switches) if tsim.switches else None,
+            "fired": {"clk_set": 1, "thread_preemptions": len(tsim.switches)}, "probes": probes, "vtime_ns": 0, "_script": tsim.script()}
+
+
 def run(case) -> dict:
     """case: [config, flavour, ft, sub_ns, [earlier fts...]]"""
     config, fl, ft, sub_ns, history = case[:5]
@@ -179,13 +229,13 @@ class C09(common.Check):
     rule = ("case = (cache configuration rk|seed, flavour, clock instant in 100 ns ticks + sub-tick ns, earlier instants on the same cache). "
             "Enumerated: every L0 boundary 1970..2200 (L0 315..513) x every tick offset -64..+64; L1 and L2 boundaries in 40 L0 epochs x "
             "offsets; sub-tick offsets 0/1/50/99 ns; PRNG instants across 1970..2200; clock jumps backwards/forwards between calls sharing "
-            "a cache; the same instants in fresh interpreters whose process timezone is not UTC; several async protects started together on one cache while the ticking clock passes a boundary (each blob must name an interval of its own call's span); a clock that advances 1..1000 ticks per reading so that one call straddles an L2/L1/L0 boundary (any interval containing an "
+            "a cache; the same instants in fresh interpreters whose process timezone is not UTC; several async protects started together on one cache while the ticking clock passes a boundary (each blob must name an interval of its own call's span); 2..3 caller threads protecting on one cache at the same time under the same oracle, pre-empted at PRNG-chosen line events; a clock that advances 1..1000 ticks per reading so that one call straddles an L2/L1/L0 boundary (any interval containing an "
             "instant between its first and last reading is accepted); 'seed' cases obtain an envelope from the reference DC late in the epoch and protect after the clock jumped back. "
             "Non-trivial = instant within 64 ticks of an interval boundary or a history with a clock jump; distinct = distinct tuple.")
     components = {"client": "real (ncrypt_protect_secret / async, KeyCache, _get_protection_gke_from_cache)", "clock": "simulated (dpapi_ng._client.time seam)",
                   "DC": "model (RefDC) in the 'seed' configuration", "parser of the emitted blob": "model (ref.cms)"}
     assumptions = ["interval formula in exact integer arithmetic on FILETIME ticks (ref.gkdi.interval_of_filetime)"]
-    required_fired = ("from_cache", "from_cached_seed", "clk_jump_back", "clock_ticks_per_read", "uncovered_offline_raises", "non_utc_timezone", "overlapping_async_protects")
+    required_fired = ("from_cache", "from_cached_seed", "clk_jump_back", "clock_ticks_per_read", "uncovered_offline_raises", "non_utc_timezone", "overlapping_async_protects", "thread_protects_one_cache", "thread_overlap", "thread_call_entirely_on_one_side")
 
     def exhaustive(self, tier):
         return True
@@ -249,6 +299,15 @@ class C09(common.Check):
                     for base in (l0 * 1024 * B, (l0 * 1024 + l0 % 1000 + 1) * B):
                         for stagger in (0, 20, 300, 2000):
                             out.append(["overlap", n_, base - k, tick_ticks, stagger])
+        # ... and caller threads protecting on one cache (every pre-emption decided by the thread scheduler)
+        from checks import threadpure
+
+        for i in range(700 if tier == "quick" else 30000):
+            l0 = rng.randrange(330, 500)
+            base = rng.choice((l0 * 1024 * B, (l0 * 1024 + rng.randrange(1, 1024)) * B))
+            tick_ticks = rng.choice((1, 1, 2, 3, 40))
+            pol = {"mode": "marks", "q": rng.choice((0.2, 0.4, 0.6, 0.9)), "p": rng.choice((0.0, 0.01, 0.03))} if i % 3 else threadpure.policy_for(i // 3)
+            out.append(["toverlap", 2 + i % 2, base - rng.randrange(1, 6) * tick_ticks, tick_ticks, rng.getrandbits(30), pol])
         # the process runs in a timezone other than UTC (fresh interpreter per case)
         for k, tz in enumerate(("IST-5:30", "EST5EDT", "NZST-12", "UTC+11")):
             for j in range(4 if tier == "quick" else 40):
@@ -272,9 +331,16 @@ class C09(common.Check):
             return run_tz(case)
         if case[0] == "overlap":
             return run_overlap(case)
+        if case[0] == "toverlap":
+            return run_thread_overlap(case)
         return run(case)
 
     def shrink(self, case):
+        if case[0] == "toverlap":
+            from checks import threadpure
+
+            yield from threadpure.shrinks(case, 5, 1, run_thread_overlap)
+            return
         if case[0] in ("tz", "overlap"):
             return
         config, fl, ft, sub, hist = case[:5]
@@ -294,6 +360,8 @@ class C09(common.Check):
     def sample_repr(self, case, res):
         if case[0] == "tz":
             return {"config": "rk", "flavour": case[1], "filetime": case[2], "process_timezone": case[3]}
+        if case[0] == "toverlap":
+            return dict(zip(("kind", "caller_threads", "filetime", "clock_ticks_per_reading", "seed", "thread_policy"), case))
         if case[0] == "overlap":
             return dict(zip(("kind", "concurrent_protects", "filetime", "clock_ticks_per_reading", "start_stagger_us"), case))
         return {"config": case[0], "flavour": case[1], "filetime": case[2], "sub_ns": case[3], "earlier_instants": case[4],
